@@ -421,7 +421,10 @@ def _get_sort_aux(node):  # noqa: C901
     Return ``None`` if it can not be inferred. Requires that global
     information has been populated via ``collect_information``.
     """
-    if node.is_leaf() and node.data in __sort_lookup:
+    # (a constant is never a declared symbol, even if the input contains an
+    # ill-formed command that declares one: the numerals of the input are
+    # not occurrences of that symbol)
+    if node.is_leaf() and node.data in __sort_lookup and not is_const(node):
         return __sort_lookup[node]
     if is_bool_const(node):
         return Node('Bool')
@@ -699,7 +702,7 @@ def get_bv_width(node):  # noqa: C901
             assert data.startswith('#x')
             return len(data[2:]) * 4
         return int(node[2].data)
-    if node in __sort_lookup:
+    if node in __sort_lookup and not is_const(node):
         bvsort = __sort_lookup[node]
         if is_bv_sort(bvsort):
             return int(bvsort[2].data)
